@@ -93,7 +93,8 @@ def run_worker(args):
                 # reach pass (worker 0 only): REACH_CASES case indices spread evenly over this workload's case space are run once more
                 # with line monitoring on, whatever worker owns them; their monitor events count, their evaluations do not
                 inject.tool().start_reach()
-                for ridx in sorted({int(round(k * (ncases - 1) / max(1, REACH_CASES - 1))) for k in range(min(ncases, REACH_CASES))}):
+                nreach = int(getattr(mod, "REACH_CASES", {}).get(name, REACH_CASES)) if isinstance(getattr(mod, "REACH_CASES", None), dict) else REACH_CASES
+                for ridx in sorted({int(round(k * (ncases - 1) / max(1, nreach - 1))) for k in range(min(ncases, nreach))}):
                     ctx.set_case(name, ridx)
                     try:
                         func(ctx, ridx, ctx.rng(name, ridx))
